@@ -302,6 +302,9 @@ uint64_t g_switch_seq(void) { return g_seq; }
 // a fiber_yield by program fiber idx came back without any switch.  Exact view of what it passed over: the fibers that sit
 // in the run queues of this very kernel thread right now (only the owner pushes, and the owner is the caller, so nothing
 // can have been added since the scheduler looked).  Valid with any number of kernel threads.
+// a program fiber is about to call fiber_yield: from here on it counts as ready on this kernel thread, whether or not the
+// library ever passes it to the scheduler again (event type 3)
+GHOST void g_yield_begin(int idx) { gev_add(3, vs_self(), idx); }
 GHOST void g_yield_noswitch(int idx) {
   gev_add(2, vs_self(), idx);
   if (strcmp(g_case.harness, "yield")) return;
